@@ -118,6 +118,11 @@ def apply_op(mab, op, catch=True):
         if name == "predict_expectations":
             return canon("predict_expectations",
                          mab.predict_expectations(op[1]) if op[1] is not None else mab.predict_expectations())
+        if name in ("predict_tiled", "predict_expectations_tiled"):
+            # [name, rows, times]: the rows repeated `times` times (large batches without large plans)
+            big = [list(r) for _ in range(op[2]) for r in op[1]]
+            kind = name[:-6]
+            return canon(kind, getattr(mab, kind)(big))
         if name == "add_arm":
             b = binarizers.make(op[2]) if len(op) > 2 and op[2] is not None else None
             mab.add_arm(op[1], b) if b is not None else mab.add_arm(op[1])
